@@ -13,17 +13,20 @@ VARIABLE hist
 H1 == "h1"  H2 == "h2"  H3 == "h3"
 
 (* initial configurations: empty; two aliases of a short list; a list      *)
-(* filled to the growth boundary of 4 (8 for one-byte elements)            *)
+(* filled to the growth boundary of 4 (8 for one-byte elements); a list    *)
+(* next to an empty list                                                   *)
 V0 == CHOOSE v \in Vals : TRUE
 V1 == IF Cardinality(Vals) > 1 THEN CHOOSE v \in Vals : v # V0 ELSE V0
 InitHeap == CASE InitKind = "empty" -> <<>>
               [] InitKind = "alias" -> << <<V0, V1>> >>
               [] InitKind = "full4" -> << <<V0, V1, V1, V0>>, <<V1>> >>
               [] InitKind = "full8" -> << <<V0, V1, V1, V0, V0, V0, V1, V1>> >>
+              [] InitKind = "wempty" -> << <<V0, V1>>, <<>> >>
 InitMap  == CASE InitKind = "empty" -> [h \in Handles |-> 0]
               [] InitKind = "alias" -> [h \in Handles |-> IF h = H3 THEN 0 ELSE 1]
               [] InitKind = "full4" -> [h \in Handles |-> IF h = H1 THEN 1 ELSE IF h = H2 THEN 1 ELSE 2]
               [] InitKind = "full8" -> [h \in Handles |-> IF h = H3 THEN 0 ELSE 1]
+              [] InitKind = "wempty" -> [h \in Handles |-> IF h = H1 THEN 1 ELSE IF h = H2 THEN 2 ELSE 0]
 
 MCInit == heap = InitHeap /\ hmap = InitMap /\ obs = "init" /\ hist = <<>>
 
